@@ -43,13 +43,24 @@ func parseOnce(s string) parseOut {
 
 // parseGuarded runs Parse with a generous watchdog (parsing a few KB takes
 // microseconds; half a minute means it does not terminate).
+// hangAfter: the parser needs a few microseconds per token (1.5M nested
+// parentheses take 5-8 s on a busy machine); a parse is taken for
+// non-terminating (or worse than linear) after 40 s, and for multi-megabyte
+// inputs after 120 s.
+func hangAfter(n int) time.Duration {
+	if n > 500000 {
+		return 120 * time.Second
+	}
+	return 40 * time.Second
+}
+
 func parseGuarded(s string) (parseOut, bool) {
 	ch := make(chan parseOut, 1)
 	go func() { ch <- parseOnce(s) }()
 	select {
 	case o := <-ch:
 		return o, true
-	case <-time.After(40 * time.Second):
+	case <-time.After(hangAfter(len(s))):
 		return parseOut{}, false
 	}
 }
@@ -191,6 +202,17 @@ type totalSpec struct {
 	Input string
 	Kind  string
 	Other string
+	// Repeat > 0: the marker "@@" in Input stands for Repeat copies of Unit
+	// (very long inputs stay small in replay files)
+	Repeat int    `json:",omitempty"`
+	Unit   string `json:",omitempty"`
+}
+
+func (s totalSpec) text() string {
+	if s.Repeat > 0 {
+		return strings.Replace(s.Input, "@@", strings.Repeat(s.Unit, s.Repeat), 1)
+	}
+	return s.Input
 }
 
 // typeArgsOf gives the parenthesised type arguments reported for column i
@@ -217,42 +239,75 @@ func TestC16Total(t *testing.T) {
 			}
 			return totalSpec{Input: in, Kind: kind, Other: other}
 		},
-		Run: func(r *vt.Run, t vt.TB, s totalSpec) {
-			first, ok := parseGuarded(s.Input)
+		Run: totalRun,
+	})
+}
+
+// TestC16Long: very long tokens (quoted names and literals full of doubled
+// quotes, long runs of digits, signs, parentheses, list elements). Few cases,
+// each of them big.
+func TestC16Long(t *testing.T) {
+	vt.Exec(t, vt.Check[totalSpec]{
+		ID: "C16", Test: "TestC16Long",
+		Gen: func(t *rapid.T) totalSpec {
+			return totalSpec{
+				Input:  rapid.SampledFrom([]string{"CREATE TABLE t (\"a@@\")", "CREATE TABLE t (a DEFAULT 'x@@')", "CREATE INDEX i ON t (`@@`)", "CREATE TABLE t (a CHECK (a > @@1))", "CREATE TABLE [@@] (a)", "SELECT @@ FROM t", "CREATE TABLE t (a DEFAULT @@1)"}).Draw(t, "longtmpl"),
+				Unit:   rapid.SampledFrom([]string{"\"\"", "''", "``", "9", "- ", "(", "a,", "--", " "}).Draw(t, "longunit"),
+				Repeat: rapid.SampledFrom([]int{1000, 20000, 300000, 1500000}).Draw(t, "longn"),
+				Kind:   "long", Other: "SELECT a FROM t",
+			}
+		},
+		Run: totalRun,
+	})
+}
+
+func totalRun(r *vt.Run, t vt.TB, s totalSpec) {
+	{
+		{
+			in := s.text()
+			show := in
+			if len(show) > 300 {
+				show = fmt.Sprintf("%s ... (%d bytes: %q with @@ = %d x %q)", in[:120], len(in), s.Input, s.Repeat, s.Unit)
+			}
+			first, ok := parseGuarded(in)
 			accepted := ok && first.err == "" && first.panic == ""
 			cls := "total:" + s.Kind + ":rejected"
 			if accepted {
 				cls = "total:" + s.Kind + ":accepted"
 			}
-			r.Case(s, len(s.Input) > 0, cls)
+			r.Case(s, len(in) > 0, cls)
 			if !ok {
-				r.Violation(t, s, "total:hang", "Parse did not return within 40s on %d bytes", len(s.Input))
+				r.Violation(t, s, "total:hang", "Parse did not return within %v on %d bytes: %s", hangAfter(len(in)), len(in), show)
 				return
 			}
 			if first.panic != "" {
-				r.Violation(t, s, "total:panic", "Parse(%q) panics: %s", s.Input, first.panic)
+				r.Violation(t, s, "total:panic", "Parse(%s) panics: %s", show, first.panic)
 				return
 			}
 			if first.res == nil && first.err == "" {
-				r.Violation(t, s, "total:neither", "Parse(%q) returned neither a statement nor an error", s.Input)
+				r.Violation(t, s, "total:neither", "Parse(%s) returned neither a statement nor an error", show)
 				return
 			}
 			// (several times: an order-dependent choice, e.g. by map iteration,
 			// shows with some probability only)
-			for i := 0; i < 6; i++ {
-				second := parseOnce(s.Input)
+			repeats := 6
+			if len(in) > 100000 {
+				repeats = 1 // (the parser is linear but not fast: 1.5M nested parentheses take seconds)
+			}
+			for i := 0; i < repeats; i++ {
+				second := parseOnce(in)
 				if !reflect.DeepEqual(first, second) {
-					r.Violation(t, s, "det:repeat", "Parse(%q) repeatedly: %+v then %+v", s.Input, first, second)
+					r.Violation(t, s, "det:repeat", "Parse(%s) repeatedly: %.300v then %.300v", show, first, second)
 					return
 				}
 			}
 			parseOnce(s.Other)
-			third := parseOnce(s.Input)
+			third := parseOnce(in)
 			if !reflect.DeepEqual(first, third) {
-				r.Violation(t, s, "det:after-other", "Parse(%q) after parsing %q: %+v, before %+v", s.Input, s.Other, third, first)
+				r.Violation(t, s, "det:after-other", "Parse(%s) after parsing %q: %.300v, before %.300v", show, s.Other, third, first)
 			}
-		},
-	})
+		}
+	}
 }
 
 // ---- locality
